@@ -163,8 +163,10 @@ class KeyedList(Generic[ItemType, KeyType], MutableSequence, KeyedBase):  # pyli
                 raise ValueError(
                     f"Item with key `{repr(key)}` already in `{type_label(self._type)}`."
                 )
-            self._list[index_or_key] = item
+            # (the index entry goes first: if the stored item's key went stale
+            # behind our back, this fails before anything has been replaced)
             del self._dict[old_key]
+            self._list[index_or_key] = item
             self._dict[key] = item
             return
 
@@ -176,8 +178,8 @@ class KeyedList(Generic[ItemType, KeyType], MutableSequence, KeyedBase):  # pyli
             raise RuntimeError("Cannot delete multiple values at a time.")
         if isinstance(index_or_key, int):
             key = self.key(self._list[index_or_key])
+            del self._dict[key]  # (first: fails on a stale key before the list changes)
             del self._list[index_or_key]
-            del self._dict[key]
             return
 
         index = self.index_for_key(index_or_key)
